@@ -12,7 +12,7 @@ func init() {
 		registry2 = map[string]*target2{}
 		pkgOrder2 = nil
 		register2("t2", []string{"sumTo", "find", "countUntil", "nested", "at", "window", "be", "put", "div",
-			"classify", "guarded", "check", "mk", "rangeInt"})
+			"classify", "guarded", "check", "mk", "rangeInt", "lines", "greet", "anyTrue"})
 	case "bad":
 		registry2 = map[string]*target2{}
 		pkgOrder2 = nil
